@@ -4,7 +4,7 @@ HOOKS = {
     "guard": "roto_verif",
     "enable": "RUSTFLAGS='--cfg roto_verif' (set in /verif/harness/.cargo/config.toml: the harness crate has a path dependency on /repo, so every check rebuilds /repo's working tree with the hooks compiled in)",
     "baseline_off_cmd": "cd /repo && (cargo nextest run --workspace --no-fail-fast --test-threads 8 --offline || cargo test --workspace --no-fail-fast --offline)",
-    "source_commits": [],
+    "source_commits": ["c89369c", "9f183fd"],
     "add_only": True,
 }
 
